@@ -5,6 +5,7 @@ import (
 	"context"
 	"encoding/binary"
 	"fmt"
+	"regexp"
 	"sort"
 	"strings"
 	"sync"
@@ -46,10 +47,12 @@ type C06DBI struct {
 }
 
 type C06Case struct {
-	Native   bool     `json:"native"`
-	Instance string   `json:"instance"`
-	DBIs     []C06DBI `json:"dbis"`
-	Private  bool     `json:"private,omitempty"` // also create _sync... DBIs that must not be dumped
+	Native   bool   `json:"native"`
+	Instance string `json:"instance"`
+	// HostFallback: no instance name is configured; Instance is the host name the syncer falls back to
+	HostFallback bool     `json:"host_fallback,omitempty"`
+	DBIs         []C06DBI `json:"dbis"`
+	Private      bool     `json:"private,omitempty"` // also create _sync... DBIs that must not be dumped
 	// Sweeper: the tomb sweeper is configured (retention in days); a snapshot still carries every
 	// marker that exists in the LMDB, however old
 	Sweeper float32 `json:"sweeper_retention_days,omitempty"`
@@ -177,6 +180,10 @@ func checkC06(c C06Case, o *vcore.Obs) error {
 	defer env.Close()
 	b := fault.NewBucket()
 	conf := BaseConfig(c.Instance)
+	if c.HostFallback {
+		conf.Instance = ""
+		defer syncer.VerifSetHostname(syncer.VerifSetHostname(c.Instance))
+	}
 	if c.Sweeper > 0 {
 		conf.Sweeper = config.Sweeper{Enabled: true, RetentionDays: c.Sweeper, Interval: time.Hour, FirstInterval: time.Hour, LockDuration: time.Millisecond, ReleaseDuration: time.Millisecond}
 	}
@@ -195,6 +202,10 @@ func checkC06(c C06Case, o *vcore.Obs) error {
 		return err
 	}
 	inst := s.VerifInstanceID()
+	// the documented rule, independently: every character outside [a-zA-Z0-9-] becomes '-' (configured name or host name)
+	if want := regexp.MustCompile("[^a-zA-Z0-9-]").ReplaceAllString(c.Instance, "-"); inst != want {
+		return fmt.Errorf("instance id %q for the configured/host name %q, the documented rule gives %q", inst, c.Instance, want)
+	}
 	// fill
 	err = env.Update(func(txn *lmdb.Txn) error {
 		for _, d := range c.DBIs {
@@ -340,6 +351,7 @@ func checkC06(c C06Case, o *vcore.Obs) error {
 	o.ClassIf(c.Native, "native")
 	o.ClassIf(!c.Native, "shadow")
 	o.ClassIf(c.Private, "private-dbis-present")
+	o.ClassIf(c.HostFallback, "host-name-as-instance-name")
 	o.ClassIf(c.Sweeper > 0, "sweeper-configured")
 	o.ClassIf(len(c.DBIs) == 0, "no-dbis")
 	return nil
@@ -348,7 +360,8 @@ func checkC06(c C06Case, o *vcore.Obs) error {
 func genC06(t *rapid.T) C06Case {
 	var c C06Case
 	c.Native = rapid.Bool().Draw(t, "native")
-	c.Instance = rapid.SampledFrom([]string{"inst-1", "a", "host.example.com", "under_score", "Üñï", "x y"}).Draw(t, "instance")
+	c.Instance = rapid.SampledFrom([]string{"inst-1", "a", "host.example.com", "under_score", "Üñï", "x y", "db__node_", "a.pb.gz"}).Draw(t, "instance")
+	c.HostFallback = rapid.IntRange(0, 3).Draw(t, "host_fallback") == 0
 	nd := rapid.IntRange(0, 6).Draw(t, "ndbi")
 	huge := 0
 	for i := 0; i < nd; i++ {
